@@ -100,6 +100,11 @@ func c10eval(r *vx.R, c c10case) {
 	if !bytes.Equal(nonce, keepN) || !bytes.Equal(aad, keepA) {
 		r.Violation("buf:"+c.Op+":nonce-or-aad-modified", "nonce or additional data modified", c)
 	}
+	if c.Spare == "inplace" && c.Op == "open" && !bytes.Equal(inbuf[len(pt):], keepIn[len(pt):]) {
+		// in place, only the plaintext-sized head of the ciphertext is the (exactly overlapping) destination: the tag behind it
+		// is caller data
+		r.Violation("buf:open:input-modified:tag-inplace", fmt.Sprintf("in-place Open changed ciphertext bytes behind the plaintext (the tag) [%s]", path), c)
+	}
 	if c.Spare != "inplace" && !bytes.Equal(inbuf, keepIn) {
 		first := 0
 		for first < len(inbuf) && inbuf[first] == keepIn[first] {
@@ -125,6 +130,124 @@ func c10eval(r *vx.R, c c10case) {
 	r.Shape(fmt.Sprintf("%s:pt%d:aad%d:t%d:n%d", shape, c.PtLen, c.AadLen, c.Tag, c.NLen))
 }
 
+type c10arena struct {
+	Op     string
+	Layout string
+	Hdr    int
+	PtLen  int
+	AadLen int
+	Tag    int
+	NLen   int
+}
+
+// c10arenaEval: arguments that legally share one buffer. The AEAD contract forbids only an inexact overlap between the
+// output (dst[len(dst):] up to the end of the result) and the input, and any overlap between the output and the
+// additional data; everything else - additional data or nonce inside the dst prefix (the TLS record idiom), in-place
+// operation behind a non-empty prefix, additional data identical to the input, all arguments adjacent - is legal.
+func c10arenaEval(r *vx.R, c c10arena) {
+	key := keyByName("std")
+	a, path, err := newAEAD(key, c.NLen, c.Tag)
+	if err != nil {
+		r.Add("unsupported_on_this_path", 1)
+		return
+	}
+	r.Eval(1)
+	pt := fillLen("pt", c.PtLen)
+	nonce := fillLen("nonce", c.NLen)
+	aad := fillLen("aad", c.AadLen)
+	hdr := vx.Fill("arenahdr", c.Hdr)
+	inLen := c.PtLen
+	if c.Op == "open" {
+		inLen += c.Tag
+	}
+	rec := make([]byte, c.Hdr+c.PtLen+c.Tag+8)
+	for i := range rec {
+		rec[i] = 0x5A
+	}
+	copy(rec, hdr)
+	dst := rec[:c.Hdr]
+	inPlace := true
+	var in []byte
+	switch c.Layout {
+	case "tls": // dst prefix = additional data = record header, payload sealed/opened in place behind it
+		aad = rec[:c.Hdr]
+	case "prefix-inplace":
+	case "aad=prefix": // input elsewhere
+		aad = rec[:c.Hdr]
+		inPlace = false
+	case "aad-in-prefix":
+		aad = rec[1 : c.Hdr-1]
+	case "nonce-in-prefix":
+		nonce = rec[:c.NLen]
+	case "aad=input": // dst nil, additional data is the very slice that is sealed/opened
+		dst, inPlace = nil, false
+	case "one-buffer": // nonce | aad | input adjacent in one allocation, dst nil
+		dst, inPlace = nil, false
+	}
+	// the message that belongs to the final (nonce, aad)
+	sealed := gcmref.Seal(refCipher(key), nonce, pt, aad, c.Tag)
+	if c.Layout == "aad=input" {
+		// aad is the input itself: seal -> aad = pt; open -> aad = ciphertext||tag, which depends on the aad: not constructible
+		if c.Op == "open" {
+			return
+		}
+		sealed = gcmref.Seal(refCipher(key), nonce, pt, pt, c.Tag)
+	}
+	input, wantOut := pt, sealed
+	if c.Op == "open" {
+		input, wantOut = sealed, pt
+	}
+	switch {
+	case inPlace:
+		copy(rec[c.Hdr:], input)
+		in = rec[c.Hdr : c.Hdr+inLen]
+	case c.Layout == "one-buffer":
+		one := append(append(append([]byte{}, nonce...), aad...), input...)
+		nonce, aad, in = one[:c.NLen], one[c.NLen:c.NLen+c.AadLen], one[c.NLen+c.AadLen:]
+	default:
+		in = append([]byte{}, input...)
+	}
+	if c.Layout == "aad=input" {
+		aad = in
+	}
+	keepN, keepA, keepIn, keepRec := append([]byte{}, nonce...), append([]byte{}, aad...), append([]byte{}, in...), append([]byte{}, rec...)
+	var out []byte
+	var oerr error
+	kind, msg := vx.TryFault(func() {
+		if c.Op == "seal" {
+			out = a.Seal(dst, nonce, in, aad)
+		} else {
+			out, oerr = a.Open(dst, nonce, in, aad)
+		}
+	})
+	name := fmt.Sprintf("%s:%s", c.Op, c.Layout)
+	if kind != "" {
+		r.Violation("buf:arena:panic:"+name, fmt.Sprintf("%s panicked (%s) on a legal argument layout '%s' (hdr %d, msg %d, aad %d, tag %d, nonce %d) [%s]: %s", c.Op, kind, c.Layout, c.Hdr, c.PtLen, len(aad), c.Tag, c.NLen, path, msg), c)
+		return
+	}
+	if oerr != nil {
+		r.Violation("buf:arena:error:"+name, fmt.Sprintf("Open of an authentic message failed in layout '%s': %v [%s]", c.Layout, oerr, path), c)
+		return
+	}
+	want := append(append([]byte{}, keepRec[:len(dst)]...), wantOut...)
+	if !bytes.Equal(out, want) {
+		r.Violation("buf:arena:result:"+name, fmt.Sprintf("layout '%s': result (len %d) is not dst||output (len %d) [%s]", c.Layout, len(out), len(want), path), c)
+	}
+	if !bytes.Equal(rec[:c.Hdr], keepRec[:c.Hdr]) {
+		r.Violation("buf:arena:prefix-modified:"+name, "the dst prefix (record header) was changed", c)
+	}
+	if c.Layout != "nonce-in-prefix" && !bytes.Equal(nonce, keepN) {
+		r.Violation("buf:arena:nonce-modified:"+name, "nonce modified", c)
+	}
+	if !inPlace && c.Layout != "aad=input" && !bytes.Equal(aad, keepA) || !inPlace && !bytes.Equal(in, keepIn) {
+		r.Violation("buf:arena:input-modified:"+name, "additional data or input modified although nothing overlaps the output", c)
+	}
+	if inPlace && c.Op == "open" && !bytes.Equal(in[c.PtLen:], keepIn[c.PtLen:]) {
+		r.Violation("buf:arena:tag-modified:"+name, fmt.Sprintf("in-place Open changed the tag bytes of the caller's ciphertext [%s]", path), c)
+	}
+	r.Shape(fmt.Sprintf("arena:%s:h%d:pt%d:aad%d:t%d:n%d", name, c.Hdr, c.PtLen, c.AadLen, c.Tag, c.NLen))
+}
+
 func spareClass(s string) string {
 	switch s {
 	case "nil", "empty", "inplace":
@@ -136,16 +259,50 @@ func spareClass(s string) string {
 }
 
 func TestVX_C10_GCM(t *testing.T) {
-	r := vx.Begin("C10", gcmPart("buffers-gcm"), "Seal and Open with every destination shape: len(dst) in {0..9,11,15,16,17,31,39} x spare capacity in {0,1,need-1,need,need+1,need+64}, nil, non-nil empty, and the in-place idiom dst=input[:0] - x message lengths {0,1,15,16,17,64,255,256,257,1100} x aad {0,17} x tag {12,16} x nonce {12,16}; each call repeated on the same buffers. Oracle: result == dst||gcmref output, first len(dst) bytes unchanged, nonce/aad/input unchanged (except the exactly overlapping destination), second call == first call")
+	r := vx.Begin("C10", gcmPart("buffers-gcm"), "Seal and Open with every destination shape: len(dst) in {0..9,11,15,16,17,31,39} x spare capacity in {0,1,need-1,need,need+1,need+64}, nil, non-nil empty, and the in-place idiom dst=input[:0] - x message lengths {0,1,15,16,17,64,255,256,257,1100} x aad {0,17} x tag {12,16} x nonce {12,16}; each call repeated on the same buffers; arguments sharing one buffer in every legal way: TLS record idiom (dst prefix = additional data, payload in place behind it), in place behind a prefix, additional data / nonce inside the prefix, additional data = input, nonce|aad|input adjacent - headers {1,5,13,16,17} x messages {0,1,3,4,15,16,17,20,33,64,255,256,257,1100}; in-place Open leaves the tag bytes of the caller's ciphertext alone. Oracle: result == dst||gcmref output, first len(dst) bytes unchanged, nonce/aad/input unchanged (except the exactly overlapping destination), second call == first call")
 	defer r.End()
 	selfCheck()
 	if raw, ok := vx.Replay(gcmPart("buffers-gcm")); ok {
+		var probe map[string]interface{}
+		json.Unmarshal(raw, &probe)
+		if _, ok := probe["Layout"]; ok {
+			var c c10arena
+			json.Unmarshal(raw, &c)
+			c10arenaEval(r, c)
+			return
+		}
 		var c c10case
 		json.Unmarshal(raw, &c)
 		c10eval(r, c)
 		return
 	}
 	n := 0
+	for _, op := range []string{"seal", "open"} {
+		for _, lay := range []string{"tls", "prefix-inplace", "aad=prefix", "aad-in-prefix", "nonce-in-prefix", "aad=input", "one-buffer"} {
+			for _, hdr := range []int{1, 5, 13, 16, 17} {
+				for _, pl := range []int{0, 1, 3, 4, 15, 16, 17, 20, 33, 64, 255, 256, 257, 1100} {
+					for _, tag := range []int{12, 16} {
+						for _, nl := range []int{12, 16} {
+							if nl == 16 && pl%16 != 1 && lay != "nonce-in-prefix" {
+								continue
+							}
+							if lay == "aad-in-prefix" && hdr < 3 || lay == "nonce-in-prefix" && hdr < nl {
+								continue
+							}
+							if (lay == "aad=input" || lay == "one-buffer") && hdr != 5 {
+								continue
+							}
+							n++
+							if !vx.MineIdx(n) {
+								continue
+							}
+							c10arenaEval(r, c10arena{op, lay, hdr, pl, 17, tag, nl})
+						}
+					}
+				}
+			}
+		}
+	}
 	for _, op := range []string{"seal", "open"} {
 		for _, pl := range []int{0, 1, 15, 16, 17, 64, 255, 256, 257, 1100} {
 			for _, al := range []int{0, 17} {
